@@ -38,7 +38,8 @@ class ConfigService:
         if custom is None:
             custom = {}
         if tracepoints is None:
-            # one tracepoint config per config service (a default argument would be shared by every agent of the process)
+            # one tracepoint config per config service (a default argument would be shared by every agent of the
+            # process)
             tracepoints = TracepointConfigService()
         self._plugins = []
         self.__custom = custom
@@ -203,7 +204,8 @@ class ConfigService:
             return []
         if isinstance(value, str):
             return [path for path in value.split(',') if path]
-        # an empty element (DEEP_IN_APP_EXCLUDE set but empty, a trailing comma) names no prefix: every path starts with ''
+        # an empty element (DEEP_IN_APP_EXCLUDE set but empty, a trailing comma) names no prefix:
+        # every path starts with ''
         return [path for path in value if path]
 
     def _find_plugin(self, plugin_type) -> PLUGIN_TYPE:
